@@ -480,6 +480,10 @@ def run(F, R, tier):
 
     # helper contract: the in-memory guid the loop compares with is read from the ONE key cell (get_key() round trip), never from a second
     # copy that clear_key() could leave behind
+    def named(path):
+        # the fields a projection path goes through, whichever way the Ok / Some payload was taken (match, `?`, map)
+        return tuple(x for x in path if not x.startswith("@") and not x.isdigit())
+
     for nm, fld in (("get_current_key_guid", "guid"), ("get_current_key_value", "key"), ("get_current_key_incarnation", "incarnationId")):
         gf = F.body_of(KW + "KeyKeeperSharedState::" + nm)
         if not gf:
@@ -491,8 +495,8 @@ def run(F, R, tier):
         org = Bk.origins({"k": "copy", "p": {"l": 0, "p": []}}, deep=True)
         okg = bool(org) and all((o[0] == "agg" and str(o[1]).endswith(("Option::None", "Result::Ok", "Result::Err", "Option::Some"))) or
                                 (o[0] == "call" and q.ends(o[1], "KeyKeeperSharedState::get_key") and
-                                 (tuple(o[3]) == ("@Err", "0") or (tuple(o[3][:4]) == ("@Ok", "0", "@Some", "0") and tuple(o[3][4:]) == (fld,))))
-                                for o in org) and any(o[0] == "call" for o in org)
+                                 named(o[3]) in ((), (fld,)))
+                                for o in org) and any(o[0] == "call" and named(o[3]) == (fld,) for o in org)
         R.check(okg, "C09.R3", "C09.R3:%s:reads-the-key-cell" % gf["id"], "%s:%s" % (gf["file"], gf["line"]),
                 "%s() = get_key().map(|k| k.%s): derived from the single key cell of the actor" % (nm, fld),
                 "%s() is not (only) derived from get_key(): %s - a second copy of the %s can go stale when the key is cleared or replaced"
